@@ -48,8 +48,8 @@ MUTANTS = [
     m("C01-blockdiag-shape", "C01", "composite-metadata@BlockDiag.__init__:shape", OPS, "        shape = (sum(Mi.shape[-2] * c for Mi, c in zip(Ms, self.multiplicities)),\n                 sum(Mi.shape[-1] * c for Mi, c in zip(Ms, self.multiplicities)))",
       "        shape = (Ms[0].shape[-2] * len(Ms), Ms[0].shape[-1] * len(Ms))"),
     # ---------------------------------------------------------------- C20
-    m("C20-row-vector-length", "C20", "canonical-vector@arm1", BASE, "            case int(i):\n                ei = xnp.canonical(loc=i, shape=(self.shape[-2], ), dtype=self.dtype, device=self.device)", "            case int(i):\n                ei = xnp.canonical(loc=i, shape=(self.shape[-1], ), dtype=self.dtype, device=self.device)"),
-    m("C20-col-vector-length", "C20", "canonical-vector@arm3", BASE, "            case b, int(j):\n                ej = xnp.canonical(loc=j, shape=(self.shape[-1], ), dtype=self.dtype, device=self.device)", "            case b, int(j):\n                ej = xnp.canonical(loc=j, shape=(self.shape[-2], ), dtype=self.dtype, device=self.device)"),
+    m("C20-row-vector-length", "C20", "canonical-vector@__getitem__:product1", BASE, "            case int(i):\n                ei = xnp.canonical(loc=i, shape=(self.shape[-2], ), dtype=self.dtype, device=self.device)", "            case int(i):\n                ei = xnp.canonical(loc=i, shape=(self.shape[-1], ), dtype=self.dtype, device=self.device)"),
+    m("C20-col-vector-length", "C20", "canonical-vector@__getitem__:product2", BASE, "            case b, int(j):\n                ej = xnp.canonical(loc=j, shape=(self.shape[-1], ), dtype=self.dtype, device=self.device)", "            case b, int(j):\n                ej = xnp.canonical(loc=j, shape=(self.shape[-2], ), dtype=self.dtype, device=self.device)"),
     m("C20-self-A", "C20", "attribute-exists@LinearOperator.__getitem__:self.A", BASE, "                    out.append((self @ ej)[idx])", "                    out.append((self.A @ ej)[idx])"),
     m("C20-sliced-dtype", "C20", "slice-buffers@Sliced._matmat:dtype", OPS, "        dtype = xnp.promote_types(self.dtype, X.dtype)\n        Y = xnp.zeros(shape=(self.A.shape[-1], X.shape[-1]), dtype=dtype, device=device)", "        Y = xnp.zeros(shape=(self.A.shape[-1], X.shape[-1]), dtype=self.dtype, device=device)"),
     m("C20-sliced-scatter-swapped", "C20", "slice-buffers@Sliced._matmat", OPS, "        Y = xnp.update_array(Y, X, end_slices)\n        output = self.A @ Y\n        return output[start_slices]", "        Y = xnp.update_array(Y, X, start_slices)\n        output = self.A @ Y\n        return output[end_slices]"),
